@@ -358,3 +358,98 @@ def _(self: Obj['rbql_engine.Aggregator'], key: Key, val: Cell):
 def _(self: Obj['rbql_engine.Aggregator'], key: Key) -> Cell:
     requires(len(self.hist[key]) >= 1, 'group_not_empty')
     ensures(result == self.finalv[key], 'final_value_of_group')
+
+
+# ---------------------------------------------------------------- aggregate call wrappers (closures of compile_and_run)
+@contract('rbql_engine.RBQLAggregationToken.__init__', name='C03.token.init', props=['C03'])
+def _(self: Obj['rbql_engine.RBQLAggregationToken'], marker_id: Int, value: Cell):
+    ensures(self.marker_id == marker_id and self.value == value, 'fields')
+    modifies(self)
+
+
+@contract('rbql_engine.compile_and_run.init_aggregator', name='C03.init_aggregator', inline=True)
+def _():
+    pass
+
+
+@pred
+def wrapper_post(query_context, result, val, cls):
+    # before stage 2: a token carrying the argument and a fresh running id, and a new aggregator of the right class
+    # appended to the list; from stage 2 on: the argument passes through untouched
+    fa = contents(query_context.functional_aggregators)
+    return (is_agg_token(result) and token_value(result) == val and token_marker(result) == len(old(contents(query_context.functional_aggregators)))
+            and len(fa) == len(old(contents(query_context.functional_aggregators))) + 1
+            and fa[:-1] == old(contents(query_context.functional_aggregators))
+            and is_fresh(fa[-1]) and typeof_obj(fa[-1], cls) and query_context.aggregation_stage == 1)
+
+
+@contract('rbql_engine.compile_and_run.MIN', name='C03.wrapper.MIN', props=['C03'], store_policy='none')
+def _(val: Cell, *, query_context: Obj['rbql_engine.RBQLContext']) -> Cell:
+    requires(not is_offered(query_context.functional_aggregators), 'list_private')
+    ensures(implies(old(query_context.aggregation_stage) < 2, wrapper_post(query_context, result, val, 'rbql_engine.MinAggregator')), 'token_and_new_aggregator_before_stage_two')
+    ensures(implies(old(query_context.aggregation_stage) >= 2, result == val and query_context.aggregation_stage == old(query_context.aggregation_stage)
+                    and contents(query_context.functional_aggregators) == old(contents(query_context.functional_aggregators))), 'pass_through_from_stage_two')
+    modifies(field(query_context, 'aggregation_stage'), contents(query_context.functional_aggregators))
+
+
+@contract('rbql_engine.compile_and_run.MAX', name='C03.wrapper.MAX', props=['C03'], store_policy='none')
+def _(val: Cell, *, query_context: Obj['rbql_engine.RBQLContext']) -> Cell:
+    requires(not is_offered(query_context.functional_aggregators), 'list_private')
+    ensures(implies(old(query_context.aggregation_stage) < 2, wrapper_post(query_context, result, val, 'rbql_engine.MaxAggregator')), 'token_and_new_aggregator_before_stage_two')
+    ensures(implies(old(query_context.aggregation_stage) >= 2, result == val and query_context.aggregation_stage == old(query_context.aggregation_stage)
+                    and contents(query_context.functional_aggregators) == old(contents(query_context.functional_aggregators))), 'pass_through_from_stage_two')
+    modifies(field(query_context, 'aggregation_stage'), contents(query_context.functional_aggregators))
+
+
+@contract('rbql_engine.compile_and_run.SUM', name='C03.wrapper.SUM', props=['C03'], store_policy='none')
+def _(val: Cell, *, query_context: Obj['rbql_engine.RBQLContext']) -> Cell:
+    requires(not is_offered(query_context.functional_aggregators), 'list_private')
+    ensures(implies(old(query_context.aggregation_stage) < 2, wrapper_post(query_context, result, val, 'rbql_engine.SumAggregator')), 'token_and_new_aggregator_before_stage_two')
+    ensures(implies(old(query_context.aggregation_stage) >= 2, result == val and query_context.aggregation_stage == old(query_context.aggregation_stage)
+                    and contents(query_context.functional_aggregators) == old(contents(query_context.functional_aggregators))), 'pass_through_from_stage_two')
+    modifies(field(query_context, 'aggregation_stage'), contents(query_context.functional_aggregators))
+
+
+@contract('rbql_engine.compile_and_run.AVG', name='C03.wrapper.AVG', props=['C03'], store_policy='none')
+def _(val: Cell, *, query_context: Obj['rbql_engine.RBQLContext']) -> Cell:
+    requires(not is_offered(query_context.functional_aggregators), 'list_private')
+    ensures(implies(old(query_context.aggregation_stage) < 2, wrapper_post(query_context, result, val, 'rbql_engine.AvgAggregator')), 'token_and_new_aggregator_before_stage_two')
+    ensures(implies(old(query_context.aggregation_stage) >= 2, result == val and query_context.aggregation_stage == old(query_context.aggregation_stage)
+                    and contents(query_context.functional_aggregators) == old(contents(query_context.functional_aggregators))), 'pass_through_from_stage_two')
+    modifies(field(query_context, 'aggregation_stage'), contents(query_context.functional_aggregators))
+
+
+@contract('rbql_engine.compile_and_run.VARIANCE', name='C03.wrapper.VARIANCE', props=['C03'], store_policy='none')
+def _(val: Cell, *, query_context: Obj['rbql_engine.RBQLContext']) -> Cell:
+    requires(not is_offered(query_context.functional_aggregators), 'list_private')
+    ensures(implies(old(query_context.aggregation_stage) < 2, wrapper_post(query_context, result, val, 'rbql_engine.VarianceAggregator')), 'token_and_new_aggregator_before_stage_two')
+    ensures(implies(old(query_context.aggregation_stage) >= 2, result == val and query_context.aggregation_stage == old(query_context.aggregation_stage)
+                    and contents(query_context.functional_aggregators) == old(contents(query_context.functional_aggregators))), 'pass_through_from_stage_two')
+    modifies(field(query_context, 'aggregation_stage'), contents(query_context.functional_aggregators))
+
+
+@contract('rbql_engine.compile_and_run.MEDIAN', name='C03.wrapper.MEDIAN', props=['C03'], store_policy='none')
+def _(val: Cell, *, query_context: Obj['rbql_engine.RBQLContext']) -> Cell:
+    requires(not is_offered(query_context.functional_aggregators), 'list_private')
+    ensures(implies(old(query_context.aggregation_stage) < 2, wrapper_post(query_context, result, val, 'rbql_engine.MedianAggregator')), 'token_and_new_aggregator_before_stage_two')
+    ensures(implies(old(query_context.aggregation_stage) >= 2, result == val and query_context.aggregation_stage == old(query_context.aggregation_stage)
+                    and contents(query_context.functional_aggregators) == old(contents(query_context.functional_aggregators))), 'pass_through_from_stage_two')
+    modifies(field(query_context, 'aggregation_stage'), contents(query_context.functional_aggregators))
+
+
+@contract('rbql_engine.compile_and_run.ANY_VALUE', name='C03.wrapper.ANY_VALUE', props=['C03'], store_policy='none')
+def _(val: Cell, *, query_context: Obj['rbql_engine.RBQLContext']) -> Cell:
+    requires(not is_offered(query_context.functional_aggregators), 'list_private')
+    ensures(implies(old(query_context.aggregation_stage) < 2, wrapper_post(query_context, result, val, 'rbql_engine.AnyValueAggregator')), 'token_and_new_aggregator_before_stage_two')
+    ensures(implies(old(query_context.aggregation_stage) >= 2, result == val and query_context.aggregation_stage == old(query_context.aggregation_stage)
+                    and contents(query_context.functional_aggregators) == old(contents(query_context.functional_aggregators))), 'pass_through_from_stage_two')
+    modifies(field(query_context, 'aggregation_stage'), contents(query_context.functional_aggregators))
+
+
+@contract('rbql_engine.compile_and_run.COUNT', name='C03.wrapper.COUNT', props=['C03'], store_policy='none')
+def _(_val: Cell, *, query_context: Obj['rbql_engine.RBQLContext']) -> Cell:
+    requires(not is_offered(query_context.functional_aggregators), 'list_private')
+    ensures(implies(old(query_context.aggregation_stage) < 2, wrapper_post(query_context, result, 1, 'rbql_engine.CountAggregator')), 'token_and_new_aggregator_before_stage_two')
+    ensures(implies(old(query_context.aggregation_stage) >= 2, result == 1 and query_context.aggregation_stage == old(query_context.aggregation_stage)
+                    and contents(query_context.functional_aggregators) == old(contents(query_context.functional_aggregators))), 'pass_through_from_stage_two')
+    modifies(field(query_context, 'aggregation_stage'), contents(query_context.functional_aggregators))
